@@ -101,3 +101,75 @@ if "determinism.sketch_answers_strings" not in CATALOGUE:
             else:
                 sim.schedule(ev(t, "Op", client, op="get", k=rng.choice(keys)))
         return Scenario(sim, {"cache": cache, "backing": backing, "client": client}, "determinism", True, 40)
+
+
+if "determinism.cache_policy_lru" not in CATALOGUE:
+
+    def _policy(name, seed):
+        from happysimulator.components.datastore import eviction_policies as ep
+
+        return {
+            "lru": lambda: ep.LRUEviction(),
+            "lfu": lambda: ep.LFUEviction(),
+            "ttl": lambda: ep.TTLEviction(ttl=0.05),
+            "fifo": lambda: ep.FIFOEviction(),
+            "random": lambda: ep.RandomEviction(seed=seed),
+            "slru": lambda: ep.SLRUEviction(),
+            "sampled_lru": lambda: ep.SampledLRUEviction(sample_size=3, seed=seed),
+            "clock": lambda: ep.ClockEviction(),
+            "two_queue": lambda: ep.TwoQueueEviction(),
+        }[name]()
+
+    def _make_cache_scenario(pname):
+        @scenario(f"determinism.cache_policy_{pname}", "determinism")
+        def cache_policy(seed, params, pname=pname):
+            """CachedStore (write-back half of the time) with string keys under heavy capacity pressure:
+            which key a policy evicts decides hits, misses and the delivery times of every later operation."""
+            from happysimulator.components.datastore import CachedStore, KVStore
+
+            rng = random.Random(seed)
+            backing = KVStore("backing", read_latency=0.002, write_latency=0.003)
+            cache = CachedStore(
+                "cache",
+                backing_store=backing,
+                cache_capacity=rng.choice([2, 3, 8]),
+                eviction_policy=_policy(pname, seed),
+                cache_read_latency=0.0005,
+                write_through=rng.random() < 0.5,
+            )
+
+            class Client(Entity):
+                def __init__(self):
+                    super().__init__("client")
+                    self.results = []
+
+                def handle_event(self, event):
+                    md = event.context["metadata"]
+                    if md["op"] == "put":
+                        yield from cache.put(md["k"], md["v"])
+                    elif md["op"] == "flush":
+                        yield from cache.flush()
+                    else:
+                        v = yield from cache.get(md["k"])
+                        self.results.append([md["k"], v])
+
+            client = Client()
+            sim = make_sim([backing, cache, client], 60.0)
+            keys = [f"user:{i}:profile" for i in range(rng.choice([6, 12, 80]))]
+            t = 0
+            n = 200
+            for i in range(n):
+                t += rng.choice([1_000_000, 5_000_000, 20_000_000])
+                r = rng.random()
+                if r < 0.35:
+                    sim.schedule(ev(t, "Op", client, op="put", k=rng.choice(keys), v=i))
+                elif r < 0.38:
+                    sim.schedule(ev(t, "Op", client, op="flush"))
+                else:
+                    sim.schedule(ev(t, "Op", client, op="get", k=rng.choice(keys)))
+            return Scenario(sim, {"cache": cache, "backing": backing, "client": client}, "determinism", True, n)
+
+        return cache_policy
+
+    for _p in ("lru", "lfu", "ttl", "fifo", "random", "slru", "sampled_lru", "clock", "two_queue"):
+        _make_cache_scenario(_p)
